@@ -97,3 +97,11 @@ Proof.
   exact (hex_column_is_all_bytes Tables.T d evs Top I (printer_never_fails_on_decoder_output Tables.T Tables.all_prims d abort r bs Hok Hr)).
 Qed.
 Print Assumptions C14_hex_column_of_any_decode.
+
+(** non-vacuity: a GetRandom response whose parameterSize is one too large, decoded in warn mode (a byte buffer, a
+    Subceeded warning, skipped padding): rows are printed, none is the failure row *)
+Example C14_example_rows :
+  let evs := map (fun e => to_pev Tables.all_prims (fst e))
+                 (fst (decode Tables.T false (RResponse (Some 379) false) [128;2;0;0;0;23;0;0;0;0; 0;0;0;5; 0;2;170;187; 0;0;1;0;0])) in
+  (List.length (pretty Tables.T "UNKNOWN"%string evs) >= 8)%nat /\ ~ In RCrashRow (pretty Tables.T "UNKNOWN"%string evs).
+Proof. vm_compute. split; [repeat constructor|]. intros H. repeat (destruct H as [H|H]; [discriminate|]). exact H. Qed.
